@@ -50,6 +50,7 @@ package pool
 //@ requires authOK && authID == nodeID && nonceOK && nonceID == nodeID
 //@ requires !held(p.mu) && registryInv(p)
 //@ ensures [errkind] !typeis(err, VerifyFailedError)
+//@ ensures [response] {C15} err == nil ==> result != nil
 //@ ensures [unlocked] {C09 C10} !held(p.mu)
 //@ ensures [effects] effects >= old(effects)
 //@ ensures [inv] {C09 C15} registryInv(p)
@@ -156,7 +157,8 @@ package pool
 //@ sendreq errChan [failure-reported-as-error] : sent != nil && !lastCallOK
 
 //@ func (*VipnodePool).Connect
-//@ property C04 C06 C09
+//@ property C04 C06 C09 C15
+//@ safety on
 //@ requires !authOK && !nonceOK && !held(p.mu) && registryInv(p)
 //@ ensures [inv] {C09} registryInv(p)
 //@ ensures [authorised] {C04 C05 C06} effects != old(effects) ==> authorised("vipnode_connect", nodeID, nonce) && verifiedConnect(authArgs, req)
@@ -165,7 +167,8 @@ package pool
 //@                              && (forall id store.NodeID :: has(p.remoteHosts, id) == old(has(p.remoteHosts, id)) && p.remoteHosts[id] == old(p.remoteHosts[id]))
 
 //@ func (*VipnodePool).Host
-//@ property C04 C06 C09
+//@ property C04 C06 C09 C15
+//@ safety on
 //@ requires !authOK && !nonceOK && !held(p.mu) && registryInv(p)
 //@ ensures [inv] {C09} registryInv(p)
 //@ ensures [authorised] {C04 C05 C06} effects != old(effects) ==> authorised("vipnode_host", nodeID, nonce) && verifiedHost(authArgs, req)
@@ -174,7 +177,8 @@ package pool
 //@                              && (forall id store.NodeID :: has(p.remoteHosts, id) == old(has(p.remoteHosts, id)) && p.remoteHosts[id] == old(p.remoteHosts[id]))
 
 //@ func (*VipnodePool).Client
-//@ property C04 C06 C09
+//@ property C04 C06 C09 C15
+//@ safety on
 //@ requires !authOK && !nonceOK && !held(p.mu) && registryInv(p)
 //@ ensures [inv] {C09} registryInv(p)
 //@ ensures [authorised] {C04 C05 C06} effects != old(effects) ==> authorised("vipnode_client", nodeID, nonce) && verifiedClient(authArgs, req)
@@ -183,7 +187,8 @@ package pool
 //@                              && (forall id store.NodeID :: has(p.remoteHosts, id) == old(has(p.remoteHosts, id)) && p.remoteHosts[id] == old(p.remoteHosts[id]))
 
 //@ func (*VipnodePool).Peer
-//@ property C04 C06 C09
+//@ property C04 C06 C09 C15
+//@ safety on
 //@ requires !authOK && !nonceOK && !held(p.mu) && registryInv(p)
 //@ ensures [inv] {C09} registryInv(p)
 //@ ensures [authorised] {C04 C05 C06} effects != old(effects) ==> authorised("vipnode_peer", nodeID, nonce) && verifiedPeer(authArgs, req)
@@ -200,7 +205,8 @@ package pool
 //@ modifies nothing
 
 //@ func (*VipnodePool).Update
-//@ property C02 C03 C04 C06 C09
+//@ property C02 C03 C04 C06 C09 C15
+//@ safety on
 //@ callreq Manager.OnUpdate [bills-previous-record] {C02} : arg0 == old(p.Store.node[store.NodeID(nodeID)])
 //@ callreq Manager.OnUpdate [bills-tracked-peers] {C02 C11} : arg1 == active
 //@ callreq disconnectPeers [cuts-off-tracked-peers] {C03} : arg1 == nodeID && arg2 == active
